@@ -344,6 +344,24 @@ func c18Tiny(c *Ctx, rng *lab.RNG, nc int64, stream uint64) {
 		count := map[uint64]int{}
 		seenKeys := map[uint64]struct{}{}
 		resets := 0
+		doClear := func(where string) bool {
+			t.Clear()
+			m.clear()
+			count = map[uint64]int{}
+			trace = append(trace, "Clear() "+where)
+			if d := m.compare(s); d != "" || t.Incrs() != 0 {
+				fail("C18/clear-not-zero", "after clear ("+where+"): "+d)
+				return false
+			}
+			for k := range seenKeys {
+				if t.Estimate(k) != 0 {
+					fail("C18/clear-not-zero", fmt.Sprintf("Estimate(%#x)=%d after clear (%s)", k, t.Estimate(k), where))
+					return false
+				}
+			}
+			r.DistinctKey("%d/tinyclear/%s", nc, where)
+			return true
+		}
 		for i := 0; i < nops; i++ {
 			var h uint64
 			if rng.Chance(0.7) {
@@ -396,6 +414,11 @@ func c18Tiny(c *Ctx, rng *lab.RNG, nc int64, stream uint64) {
 				}
 				r.Obs("tiny_resets", 1)
 				r.DistinctKey("%d/tinyreset/%d", nc, min(selfBefore, 16))
+				// a clear that comes right after an aging reset: nothing has been recorded in the new window yet, but the
+				// halved counters of the old one are still there
+				if rng.Chance(0.3) && !doClear("right-after-aging-reset") {
+					return
+				}
 				continue
 			}
 			after := t.Estimate(h)
@@ -419,21 +442,8 @@ func c18Tiny(c *Ctx, rng *lab.RNG, nc int64, stream uint64) {
 				}
 			}
 			r.DistinctKey("%d/tinyinc/%v/%d", nc, doorBefore, min(selfBefore, 16))
-			if rng.Chance(0.002) {
-				t.Clear()
-				m.clear()
-				count = map[uint64]int{}
-				if d := m.compare(s); d != "" || t.Incrs() != 0 {
-					fail("C18/clear-not-zero", "after clear: "+d)
-					return
-				}
-				for k := range seenKeys {
-					if t.Estimate(k) != 0 {
-						fail("C18/clear-not-zero", fmt.Sprintf("Estimate(%#x)=%d after clear", k, t.Estimate(k)))
-						return
-					}
-				}
-				r.DistinctKey("%d/tinyclear", nc)
+			if rng.Chance(0.002) && !doClear("mid-window") {
+				return
 			}
 		}
 		r.Obs("tiny_sequences", 1)
